@@ -1,5 +1,287 @@
-(* C04 - placeholder while the proofs are being written; replaced below *)
+(* C04 - untrusted wire or text input only ever raises the library's own errors.
+   Statements only; the proofs are in Proofs/Parser*.v and Proofs/Untrusted*.v.
+   Models: Model/ParserM.v (dns/wirebase.py, name.from_wire_parser), Model/UntrustedM.v
+   (ExceptionWrapper, rdata.from_wire[_parser], message._WireReader / from_wire, ttl, grange,
+   zonefile line dispatch), shared Model/NameM.v (name text) and Model/TokM.v (tokenizer).
+   Result discipline: Ok | Lib e (the library's hierarchy) | Internal e (a Python-level
+   exception: IndexError, struct.error, AssertionError, ValueError, UnicodeError; exhausted
+   fuel = non-termination); for parser computations Val | Exn (XLib e) | Exn (XInt e). *)
 From DV Require Import Base.Prelude Model.NameM Model.ParserM Model.UntrustedM.
+From DV Require Model.TokM.
+From DV Require Import Proofs.NameValid Proofs.ParserSafe Proofs.ParserProg
+                       Proofs.UntrustedSafe Proofs.UntrustedDec Proofs.UntrustedText.
 Open Scope Z_scope.
-Example run_smoke : UntrustedM.run (L [I 50; L [I 49; I 104]]) = I 3600.
+
+(* ================= ExceptionWrapper ================= *)
+
+(* For an ARBITRARY inner computation (any per-type parser: any value, any library exception, any
+   Python-level exception) `with ExceptionWrapper(cls)` lets out a value or an instance of cls. *)
+Theorem wrap_closes : forall (A : Type) (cls : Z) (fam : Z -> bool) (inner : M A) (s : pstate),
+  fam cls = true ->
+  match wrap cls fam inner s with
+  | (Val a, s') => inner s = (Val a, s')
+  | (Exn (XLib e), s') => fam e = true /\ snd (inner s) = s'
+  | (Exn (XInt _), _) => False
+  end.
+Proof. exact @UntrustedSafe.wrap_closes. Qed.
+Print Assumptions wrap_closes.
+
+(* the same for text-side parsers (value-level results) *)
+Theorem wrap_closes_text : forall (A : Type) (cls : Z) (fam : Z -> bool) (inner : res A),
+  fam cls = true ->
+  match wrap_res cls fam inner with
+  | Ok a => inner = Ok a
+  | Lib e => fam e = true
+  | Internal _ => False
+  end.
+Proof. exact @UntrustedSafe.wrap_res_closes. Qed.
+Print Assumptions wrap_closes_text.
+
+(* what is converted: every Python-level exception, and every library exception outside the class *)
+Theorem wrap_converts_internal : forall (A : Type) cls fam (inner : M A) s e s',
+  inner s = (Exn (XInt e), s') -> wrap cls fam inner s = (Exn (XLib cls), s').
+Proof. exact @UntrustedSafe.wrap_converts_internal. Qed.
+Print Assumptions wrap_converts_internal.
+
+Theorem wrap_converts_foreign_lib : forall (A : Type) cls fam (inner : M A) s e s',
+  inner s = (Exn (XLib e), s') -> fam e = false -> wrap cls fam inner s = (Exn (XLib cls), s').
+Proof. exact @UntrustedSafe.wrap_converts. Qed.
+Print Assumptions wrap_converts_foreign_lib.
+
+(* ================= Parser primitives (dns/wirebase.py) ================= *)
+
+(* Any program of Parser API calls (get_bytes / get_uintN / get_struct / get_counted_bytes /
+   get_remaining / get_name, nested restrict_to; non-negative sizes) on any octet string from any
+   start offset ends in a value, FormError or a name error - never AssertionError, struct.error,
+   IndexError, never out of fuel - and the parser stays inside the message. *)
+Theorem no_internal_parser : forall (wire : list Z) (current : Z) (ops : list op),
+  bytes_ok wire -> ops_ok ops ->
+  match parser_init wire current with
+  | Exn x => x = XLib eFormError
+  | Val s0 =>
+      match exec wire ops s0 with
+      | (Val _, s1) => pfur s1 <= pcur s1 <= pend s1 /\ pend s1 = zlen wire
+      | (Exn (XLib e), s1) =>
+          ((e = eFormError \/ e = eBadPointer \/ e = eBadLabelType) \/ e = eNameTooLong) /\ pend s1 = zlen wire
+      | (Exn (XInt _), _) => False
+      end
+  end.
+Proof. exact parser_program_never_internal. Qed.
+Print Assumptions no_internal_parser.
+
+(* ================= names ================= *)
+
+(* dns.name.from_wire: total (pointer chasing terminates within the model's fuel); a valid name
+   and a positive consumed count inside the message, or FormError / BadPointer / BadLabelType /
+   NameTooLong. *)
+Theorem no_internal_name_wire : forall (wire : list Z) (current : Z),
+  bytes_ok wire ->
+  match name_from_wire wire current with
+  | Ok (n, c) => Valid n /\ 0 < c /\ current + c <= zlen wire
+  | Lib e => (e = eFormError \/ e = eBadPointer \/ e = eBadLabelType) \/ e = eNameTooLong
+  | Internal _ => False
+  end.
+Proof. exact name_from_wire_total. Qed.
+Print Assumptions no_internal_name_wire.
+
+(* dns.name.from_text (every octet string, every origin): a valid name or BadEscape / EmptyLabel /
+   LabelTooLong / NameTooLong. *)
+Theorem no_internal_name_text : forall (text : list Z) (origin : option name),
+  match NameM.from_text text origin with
+  | Ok n => Valid n
+  | Lib e => e = eBadEscape \/ e = eEmptyLabel \/ e = eLabelTooLong \/ e = eNameTooLong
+  | Internal _ => False
+  end.
+Proof. exact name_from_text_family. Qed.
+Print Assumptions no_internal_name_text.
+
+(* ================= records ================= *)
+
+(* dns.rdata.from_wire around an arbitrary per-type parser that respects the Parser API: a value
+   that consumed exactly rdlen octets, or a FormError-family error. *)
+Theorem no_internal_rdata_wire : forall (wire : list Z)
+         (per_type : Z -> Z -> M unit), (forall c t, api_disciplined wire (per_type c t)) ->
+  forall rdclass rdtype current rdlen, 0 <= rdlen ->
+  match rdata_from_wire wire per_type rdclass rdtype current rdlen with
+  | (Val _, s) => pcur s = current + rdlen /\ current + rdlen <= zlen wire
+  | (Exn (XLib e), _) => is_form e = true
+  | (Exn (XInt _), _) => False
+  end.
+Proof. exact rdata_from_wire_family. Qed.
+Print Assumptions no_internal_rdata_wire.
+
+(* the hypothesis is satisfiable: the per-type parsers of the executable model (NS-like, MX, SOA,
+   TXT, OPT, TSIG, A, AAAA, generic) have it - they do raise ValueError / SyntaxError inside *)
+Theorem per_type_instance : forall (wire : list Z), bytes_ok wire ->
+  forall origin c t, api_disciplined wire (dec_rdata wire origin c t).
+Proof. exact dec_rdata_disciplined. Qed.
+Print Assumptions per_type_instance.
+
+(* ================= messages ================= *)
+
+(* dns.message.from_wire, every option combination, arbitrary per-type parsers: a message, or a
+   FormError-family error (ShortHeader, TrailingJunk, BadEDNS, BadTSIG, name errors, FormError),
+   the documented UnknownTSIGKey, or Truncated - the latter only when raise_on_truncation. *)
+Theorem no_internal_message : forall (wire : list Z), bytes_ok wire ->
+  forall (per_type : Z -> Z -> M unit), (forall c t, api_disciplined wire (per_type c t)) ->
+  forall o : opts,
+  match message_from_wire wire per_type o with
+  | (Val _, m) => MI wire m
+  | (Exn (XLib e), m) =>
+      MI wire m /\ ((is_form e = true \/ e = eUnknownTSIGKey) \/ (e = eTruncated /\ o_raise_trunc o = true))
+  | (Exn (XInt _), _) => False
+  end.
+Proof. exact message_from_wire_family. Qed.
+Print Assumptions no_internal_message.
+
+(* continue_on_error: after the 12-octet header nothing is raised except the requested
+   truncation signal; every failure is recorded (MI: a library error code and an offset with
+   12 <= offset <= len(wire)). *)
+Theorem continue_on_error_records : forall (wire : list Z), bytes_ok wire ->
+  forall (per_type : Z -> Z -> M unit), (forall c t, api_disciplined wire (per_type c t)) ->
+  forall o : opts, o_coe o = true ->
+  match message_from_wire wire per_type o with
+  | (Val _, m) =>
+      Forall (fun eo => (is_form (fst eo) = true \/ fst eo = eUnknownTSIGKey) /\ 12 <= snd eo <= zlen wire)
+             (ms_errors m)
+  | (Exn (XLib e), _) => e = eShortHeader \/ (e = eTruncated /\ o_raise_trunc o = true)
+  | (Exn (XInt _), _) => False
+  end.
+Proof. exact UntrustedSafe.continue_on_error_records. Qed.
+Print Assumptions continue_on_error_records.
+
+(* ... and parsing resumes at rdata_start + rdlen: whenever the per-record step returns (rdata
+   parsed, or its failure recorded), the parser stands exactly behind the record's rdata. *)
+Theorem continue_on_error_resumes : forall (wire : list Z)
+  (per_type : Z -> Z -> M unit), (forall c t, api_disciplined wire (per_type c t)) ->
+  forall o section count i fu m0 s nm s1 rdtype rdclass ttl rdlen s2 r m' s',
+  get_name wire None s = (Val nm, s1) ->
+  get_struct wire [2; 2; 4; 2] s1 = (Val [rdtype; rdclass; ttl; rdlen], s2) ->
+  wfl wire 0 s2 -> 0 <= rdlen ->
+  get_rr wire per_type o section count i fu m0 s = (Val r, m', s') ->
+  pcur s' = pcur s2 + rdlen.
+Proof. exact get_rr_position. Qed.
+Print Assumptions continue_on_error_resumes.
+
+(* ================= text ================= *)
+
+(* dns.ttl.from_text, any string, any classification of characters as decimal digits *)
+Theorem no_internal_ttl : forall (dval : Z -> option Z) (s : list Z),
+  match ttl_from_text dval s with
+  | Ok v => 0 <= v <= 4294967295
+  | Lib e => e = eBadTTL
+  | Internal _ => False
+  end.
+Proof. exact ttl_from_text_family. Qed.
+Print Assumptions no_internal_ttl.
+
+(* Tokenizer.get in any state with any flags terminates with a token, SyntaxError or UnexpectedEnd *)
+Theorem no_internal_tokenizer : forall (st : TokM.tstate) (want_leading want_comment : bool),
+  match TokM.get st want_leading want_comment with
+  | Ok _ => True
+  | Lib e => e = TokM.eSyntax \/ e = TokM.eUnexpectedEnd
+  | Internal _ => False
+  end.
+Proof. exact tokenizer_get_family. Qed.
+Print Assumptions no_internal_tokenizer.
+
+Theorem no_internal_unescape : forall t : TokM.token,
+  match TokM.unescape t with
+  | Ok _ => True
+  | Lib e => e = TokM.eUnexpectedEnd \/ e = TokM.eSyntax
+  | Internal _ => False
+  end.
+Proof. exact unescape_family. Qed.
+Print Assumptions no_internal_unescape.
+
+(* unescape_to_bytes encodes to UTF-8: safe for every string without lone surrogates ... *)
+Theorem no_internal_unescape_to_bytes : forall t : TokM.token,
+  Forall (fun c => ~ (55296 <= c <= 57343)) (TokM.tvalue t) ->
+  match TokM.unescape_to_bytes t with
+  | Ok _ => True
+  | Lib e => e = TokM.eUnexpectedEnd \/ e = TokM.eSyntax
+  | Internal _ => False
+  end.
+Proof. exact unescape_to_bytes_family. Qed.
+Print Assumptions no_internal_unescape_to_bytes.
+
+(* ... a lone surrogate does reach UnicodeEncodeError in the bare token method ... *)
+Theorem unescape_to_bytes_surrogate_refuted :
+  TokM.unescape_to_bytes (TokM.mkTok TokM.tQUOTED [55296] false None) = Internal TokM.iUnicodeEncode.
+Proof. exact UntrustedText.unescape_to_bytes_surrogate_refuted. Qed.
+Print Assumptions unescape_to_bytes_surrogate_refuted.
+
+(* ... and is a SyntaxError where records are parsed (under ExceptionWrapper(SyntaxError)) *)
+Theorem unescape_to_bytes_wrapped : forall t : TokM.token,
+  match wrap_res eSyntax is_syntax (TokM.unescape_to_bytes t) with
+  | Ok _ => True
+  | Lib e => is_syntax e = true
+  | Internal _ => False
+  end.
+Proof. exact UntrustedText.unescape_to_bytes_wrapped. Qed.
+Print Assumptions unescape_to_bytes_wrapped.
+
+(* ================= zone files ================= *)
+
+(* dns.grange.from_text called directly leaks ValueError / AssertionError ... *)
+Theorem grange_unguarded_refuted :
+  grange_from_text dval_run [49; 45] = Internal iValueError
+  /\ grange_from_text dval_run [49; 47; 50] = Internal iAssertGr
+  /\ grange_from_text dval_run [49; 45; 50; 47; 48] = Internal iAssertGr.
+Proof. exact UntrustedText.grange_unguarded_refuted. Qed.
+Print Assumptions grange_unguarded_refuted.
+
+(* ... which zonefile._generate_line closes with `except Exception: raise SyntaxError` *)
+Theorem generate_range_closes : forall (dval : Z -> option Z) (s : list Z),
+  match generate_range dval s with
+  | Ok (start, stop, step) => True
+  | Lib e => e = eSyntax
+  | Internal _ => False
+  end.
+Proof. exact UntrustedText.generate_range_closes. Qed.
+Print Assumptions generate_range_closes.
+
+(* Reader.read's test on the first token of a line is total (after the fix) ... *)
+Theorem no_internal_zonefile_dispatch : forall (t : TokM.token) (directives_allowed : bool),
+  exists k, line_kind t directives_allowed = Ok k /\ 0 <= k <= 4.
+Proof. exact line_kind_total. Qed.
+Print Assumptions no_internal_zonefile_dispatch.
+
+(* ... the snapshot's `token.value[0]` raised IndexError on the empty quoted string (fixed in /repo) *)
+Theorem zonefile_dispatch_prefix_refuted :
+  line_kind_prefix (TokM.mkTok TokM.tQUOTED [] false None) true = Internal iIndexError.
+Proof. exact line_kind_prefix_refuted. Qed.
+Print Assumptions zonefile_dispatch_prefix_refuted.
+
+(* ================= non-vacuity ================= *)
+
+(* a message whose A record is one octet short: in continue_on_error mode the failure (FormError,
+   offset 43 = where the rdata parse stopped) is recorded and the message is returned *)
+Definition ex_wire : list Z :=
+  [0;1; 0;0; 0;1; 0;1; 0;0; 0;0;  3;119;119;119;0; 0;1; 0;1;
+   192;12; 0;1; 0;1; 0;0;1;44; 0;3; 1;2;3].
+
+Example ex_wire_bytes : bytes_ok ex_wire.
+Proof. unfold bytes_ok, ex_wire. repeat constructor; lia. Qed.
+
+Example ex_strict_raises :
+  fst (message_from_wire ex_wire (dec_rdata ex_wire None) (opts_of_bits 0)) = Exn (XLib eFormError).
 Proof. vm_compute. reflexivity. Qed.
+
+Example ex_coe_records :
+  let '(r, m) := message_from_wire ex_wire (dec_rdata ex_wire None) (opts_of_bits 8) in
+  r = Val tt /\ ms_errors m = [(eFormError, 36)].
+Proof. vm_compute. split; reflexivity. Qed.
+
+(* the wrapper at work: the A parser raised dns.exception.SyntaxError (not a FormError) *)
+Example ex_inner_was_foreign :
+  fst (dec_rdata ex_wire None 1 1 (mkP 33 36 33)) = Exn (XLib eSyntax)
+  /\ fst (rdata_from_wire_parser (dec_rdata ex_wire None) 1 1 (mkP 33 36 33)) = Exn (XLib eFormError).
+Proof. vm_compute. split; reflexivity. Qed.
+
+(* a compression loop is rejected, not followed forever *)
+Example ex_pointer_loop : name_from_wire [192; 0] 0 = Lib eBadPointer.
+Proof. vm_compute. reflexivity. Qed.
+
+Example ex_ops_ok : ops_ok [OU16; ORestrict 4 [OBytes 2; OU16]; OName None; ORemaining].
+Proof. cbn. repeat split; lia. Qed.
